@@ -4,7 +4,8 @@
 // zero are pre-filled with NaN / +-Inf (Poison).  Every call is logged as one ndjson record of
 // integers; TLC (spec/C07Trace.tla) recomputes the defining formula exactly and judges.
 //
-// usage: record_prims            (compile-time -DPART=1|2|3 selects the group of instantiations)
+// usage: record_prims            (compile-time -DPART=1|2|3|4 selects the group of instantiations;
+//                                 4 = scalar vectors under block matrices of a DIFFERENT precision)
 #include <vrec.hpp>
 #include <limits>
 #include <amgcl/value_type/static_matrix.hpp>
@@ -419,15 +420,6 @@ int main(int argc, char **argv) {
     mat_ops< CrsP< blk<double,3>::M >, std::vector< blk<double,3>::V >, numa_vector<double>, double >(g, "builtin", "static_matrix<double,3,3>", "y", R);
     mat_ops< CrsP< blk<float,4>::M >, std::vector<float>, iterator_range<float*>, float >(g, "builtin", "static_matrix<float,4,4>", "xy", R);
     mat_ops< CrsP< eblk<double,2>::M >, std::vector<double>, std::vector<double>, double >(g, "builtin", "Eigen::Matrix<double,2,2>", "xy", R);
-    // ... and with a vector precision different from the matrix precision (float blocks under double vectors as in the
-    // mixed-precision hybrid set-up, double blocks under float vectors): reinterpret_as_rhs must keep the VECTOR's scalar type
-    mat_ops< CrsP< blk<float,2>::M >, std::vector<double>, std::vector<double>, double >(g, "builtin", "static_matrix<float,2,2> matrix/double vectors", "xy", 2 * R);
-    mat_ops< CrsP< blk<float,3>::M >, numa_vector<double>, std::vector< blk<double,3>::V >, double >(g, "builtin", "static_matrix<float,3,3> matrix/double vectors", "x", R);
-    mat_ops< CrsP< blk<float,3>::M >, std::vector< blk<double,3>::V >, numa_vector<double>, double >(g, "builtin", "static_matrix<float,3,3> matrix/double vectors", "y", R);
-    mat_ops< CrsP< blk<double,2>::M >, std::vector<float>, std::vector<float>, float >(g, "builtin", "static_matrix<double,2,2> matrix/float vectors", "xy", R);
-    mat_ops< CrsP< blk<float,4>::M >, numa_vector<double>, iterator_range<double*>, double >(g, "builtin", "static_matrix<float,4,4> matrix/double vectors", "xy", R);
-    vmul_mixed< numa_vector< blk<float,2>::M >, std::vector<double>, double >(g, "builtin", "static_matrix<float,2,2> diagonal/double vectors", R);
-    vmul_mixed< std::vector< blk<double,3>::M >, numa_vector<float>, float >(g, "builtin", "static_matrix<double,3,3> diagonal/float vectors", R);
     vmul_mixed< numa_vector< blk<double,2>::M >, numa_vector<double>, double >(g, "builtin", "static_matrix<double,2,2>", R);
     vmul_mixed< std::vector< blk<double,3>::M >, std::vector<double>, double >(g, "builtin", "static_matrix<double,3,3>", R);
     vmul_mixed< std::vector< eblk<double,2>::M >, std::vector<double>, double >(g, "builtin", "Eigen::Matrix<double,2,2>", R);
@@ -458,6 +450,17 @@ int main(int argc, char **argv) {
     mat_ops< HybridP< blk<double,3>::M >, numa_vector<double>, numa_vector<double>, double >(g, "builtin_hybrid", "static_matrix<double,3,3>", "xy", R);
     mat_ops< HybridP< blk<float,4>::M >, numa_vector<float>, numa_vector<float>, float >(g, "builtin_hybrid", "static_matrix<float,4,4>", "xy", R);
     mat_ops< HybridP< eblk<double,2>::M >, numa_vector<double>, numa_vector<double>, double >(g, "builtin_hybrid", "Eigen::Matrix<double,2,2>", "xy", R);
+#endif
+#if PART == 0 || PART == 4
+    // ... and with a vector precision different from the matrix precision (float blocks under double vectors as in the
+    // mixed-precision hybrid set-up, double blocks under float vectors): reinterpret_as_rhs must keep the VECTOR's scalar type
+    mat_ops< CrsP< blk<float,2>::M >, std::vector<double>, std::vector<double>, double >(g, "builtin", "static_matrix<float,2,2> matrix/double vectors", "xy", 2 * R);
+    mat_ops< CrsP< blk<float,3>::M >, numa_vector<double>, std::vector< blk<double,3>::V >, double >(g, "builtin", "static_matrix<float,3,3> matrix/double vectors", "x", R);
+    mat_ops< CrsP< blk<float,3>::M >, std::vector< blk<double,3>::V >, numa_vector<double>, double >(g, "builtin", "static_matrix<float,3,3> matrix/double vectors", "y", R);
+    mat_ops< CrsP< blk<double,2>::M >, std::vector<float>, std::vector<float>, float >(g, "builtin", "static_matrix<double,2,2> matrix/float vectors", "xy", R);
+    mat_ops< CrsP< blk<float,4>::M >, numa_vector<double>, iterator_range<double*>, double >(g, "builtin", "static_matrix<float,4,4> matrix/double vectors", "xy", R);
+    vmul_mixed< numa_vector< blk<float,2>::M >, std::vector<double>, double >(g, "builtin", "static_matrix<float,2,2> diagonal/double vectors", R);
+    vmul_mixed< std::vector< blk<double,3>::M >, numa_vector<float>, float >(g, "builtin", "static_matrix<double,3,3> diagonal/float vectors", R);
     // hybrid backend with a float block matrix under double vectors (tutorial/5.Nullspace/nullspace_hybrid.cpp)
     mat_ops< HybridP< blk<float,2>::M >, numa_vector<double>, numa_vector<double>, double >(g, "builtin_hybrid", "static_matrix<float,2,2> matrix/double vectors", "xy", 2 * R);
     mat_ops< HybridP< blk<float,3>::M >, std::vector<double>, numa_vector<double>, double >(g, "builtin_hybrid", "static_matrix<float,3,3> matrix/double vectors", "xy", R);
